@@ -469,7 +469,9 @@ impl World {
         let waker = Waker::from(task.flag.clone());
         let name = task.name.clone();
         let mut cx = Context::from_waker(&waker);
+        pvcore::hang::enter(&name);
         let r = catch_unwind(AssertUnwindSafe(|| fut.as_mut().poll(&mut cx)));
+        pvcore::hang::leave();
         let mut pending = false;
         match r {
             Ok(Poll::Ready(())) => {
